@@ -51,8 +51,8 @@ CHECKS = {
         text="C04_export_file_is_first_candidate, C04_verified_multi/single_piece_not_written, C04_verified_ranges_preserved, C04_never_truncates; tied to the code by histories of 2-6 runs on one tree (changing scan sets, torrent subsets, flags, thread counts; finished export files hard-linked into scan directories), the write log intersected with previously verified ranges, and trace validation of every run. WHOLE RUN (SystemModel/SystemProofs/GlueProofs): the scanning phase is a transition system (pool of piece programs over one shared file system; steps = any program's next action, failed operations, arbitrary read answers, a write cut short); C04_whole_run_verified_preserved: a range holding the torrent's bytes holds them in every reachable state.",
         ref="DESIGN.md section 5 C04", note="'verifies' for the no-rewrite clause = export files of the declared length (exact reading); preservation/monotonicity use the loose reading."),
     "C05": dict(
-        technique="Coq proof (labelled transition system of the executor: 15-field invariant, conservation, exactly-once, deadlock freedom, strictly decreasing measure; concrete rebalancing relation proved a permutation / even) + deterministic-scheduler runs of the real executor",
-        text="C05_work_conserved, C05_exactly_once, C05_deadlock_free, C05_terminates hold for every thread count and every reachable state, i.e. every interleaving, with no fairness assumption (a measure decreases at every step); C05_balance_* prove the concrete balance a permutation that fills queues evenly. The real executor is driven through seeded schedules by the sync shim (every lock/try_lock/unlock/spawn/join/exit a scheduling point) and with real threads; each run is replayed against the model and checked for completion, exactly-once, mutual exclusion and identical trees.",
+        technique="Coq proof (labelled transition system of the executor with one-at-a-time lock release: 18-field invariant, conservation, exactly-once, deadlock freedom, strictly decreasing measure; concrete rebalancing relation proved a permutation / even) + refinement proof of an executable replay (ExecRun.xstep) + replay of the synchronisation log of every deterministic-scheduler run of the real executor through it",
+        text="C05_work_conserved, C05_exactly_once, C05_deadlock_free, C05_terminates hold for every thread count and every reachable state, i.e. every interleaving, with no fairness assumption (a measure decreases at every step); C05_balance_* prove the concrete balance a permutation that fills queues evenly. The real executor is driven through seeded schedules by the sync shim (every lock/try_lock/unlock/spawn/join/exit a scheduling point) and with real threads; each run is replayed against the model and checked for completion, exactly-once, mutual exclusion and identical trees. C05_accepted_log_is_model_path: the lock / try_lock / unlock operations on the queue and state locks, the piece scope markers and the queue dump of every balance() of each scheduled run are replayed through the extracted xstep (silent decisions + one step per synchronisation operation; the balance result is checked against BalanceModel.balance with a witness for the hash-map order), and every accepted log is proved to be a path of ExecModel.step from the initial state.",
         ref="DESIGN.md section 5 C05", note="std Mutex/thread semantics and the memory model are assumed; the shim assumes sequential consistency at scheduling points."),
     "C06": dict(
         technique="Coq proof (induction over the cursor loop, closed-form interval spec) + differential run of the extracted model against Pieces::from_torrent",
@@ -68,8 +68,8 @@ CHECKS = {
         ref="DESIGN.md section 5 C08"),
     "C09": dict(
         technique="Coq proof (no Panic, fuel |x|+1 suffices, loader total) + child-process runs of the real decoder/loader (debug+release, time limit, counting allocator)",
-        text="Partial by nature: C09_decode_no_panic, C09_decode_fuel_linear, C09_load_total are theorems of the models (all unchecked arithmetic/slices modelled as Panic-capable); stack depth, time and allocation are runtime and are exercised by child-process runs on numeric adversaries, extreme-number documents, deep nesting and long flat inputs. Known finding K1 (stack overflow on >= 4096-deep nesting) is listed in known_findings.json.",
-        ref="DESIGN.md section 5 C09", note="Runtime residue (stack, wall time, allocator) is not provable in the model."),
+        text="Partial by nature: C09_decode_no_panic, C09_decode_fuel_linear, C09_load_total are theorems of the models (all unchecked arithmetic/slices modelled as Panic-capable); C09_string/integer_automaton_is_model: the two numeric state machines of parser.rs, modelled state by state with checked_mul/checked_add/checked_sub and the unchecked position increment, are proved equal to the functions the decoder model uses and never to overflow the position; stack depth, time and allocation are runtime and are exercised by child-process runs on numeric adversaries, extreme-number documents, deep nesting and long flat inputs. Known finding K1 (stack overflow on >= 4096-deep nesting) is listed in known_findings.json.",
+        ref="DESIGN.md section 0.8 and 5 C09", note="Runtime residue (stack, wall time, allocator) is not provable in the model."),
     "C10": dict(
         technique="Coq proof (loader model on token trees = specification on abstract values with exact-key look-up) + differential run against Torrent::from_bytes on generated documents",
         text="C10_load_iff_wellformed: a byte string loads iff it is the canonical encoding of a value meeting spec_doc (clauses spelled out in C10_fields_faithful), with every loaded field equal to the value in the input; C10_exact_key: look-ups are by exact key. Tied to torrent.rs by 20k (150k thorough) structured/chaotic documents and a UTF-8 boundary stream, with an independent reference loader as oracle.",
